@@ -42,6 +42,7 @@ import (
 	"github.com/postalsys/muti-metroo/internal/sysinfo"
 	"github.com/postalsys/muti-metroo/internal/transport"
 	"github.com/postalsys/muti-metroo/internal/udp"
+	"github.com/postalsys/muti-metroo/internal/verifhook"
 )
 
 // directDialTimeout is the timeout for direct TCP connections (no mesh route).
@@ -5908,6 +5909,8 @@ func (a *Agent) doPoll() error {
 		// Listeners are already registered, nothing more to do
 		return nil
 	}
+
+	verifhook.At("agent.doPoll.before-disconnect")
 
 	// Disconnect again (still sleeping)
 	if err := a.peerMgr.DisconnectAll(); err != nil {
